@@ -32,6 +32,7 @@ type CallSpec struct {
 	Ordinal int
 	Before  []*Clause // assert before call
 	After   []*Clause // assert after call
+	Hit     bool
 }
 
 type FuncContract struct {
@@ -44,6 +45,7 @@ type FuncContract struct {
 	Ensures    []*Clause
 	Modifies   []*Clause
 	ModAll     bool // "modifies *"
+	ModAuto    bool // "modifies auto": the inferred may-write set of the function
 	HasMod     bool
 	NoOverflow bool
 	Trusted    bool
@@ -59,9 +61,12 @@ type FuncContract struct {
 	Opaque     []string // callee names to treat as havoc even if inlinable
 	NoInline   bool
 	Bounded    string
+	Hide       [][2]string // (predicate, obligation substring): definition withheld from those obligations
+	Harness    string // hand-written replay harness (path under /verif) demonstrating a violation on the real code
 }
 
 type PredDef struct {
+	Opaque bool // uninterpreted symbol + definitional axiom that single obligations may hide
 	Name   string
 	Params []paramDecl
 	Body   *Clause
@@ -122,7 +127,7 @@ var clauseKeywords = map[string]bool{
 	"nooverflow": true, "trusted": true, "loop": true, "invariant": true, "decreases": true,
 	"results": true, "pred": true, "spec": true, "axiom": true, "lemma": true, "vars": true,
 	"call": true, "assume": true, "assert": true, "maypanic": true, "checknil": true, "pure": true,
-	"opaque": true, "noinline": true, "bounded": true, "note": true, "at": true, "before": true, "after": true,
+	"opaque": true, "noinline": true, "harness": true, "hide": true, "bounded": true, "note": true, "at": true, "before": true, "after": true,
 }
 
 // rewriteImplies turns "a ==> b" into "implies(a, b)" at every parenthesis level (right associative,
@@ -320,7 +325,8 @@ func contractFiles() (map[string]string, []string) {
 		}
 		mb, _ := os.ReadFile(mpath)
 		if !bytes.Equal(rb, mb) {
-			problems = append(problems, fmt.Sprintf("contract file %s differs from its mirror %s", rpath, mpath))
+			problems = append(problems, fmt.Sprintf("contract file %s differs from its mirror %s (run /verif/sync_contracts.sh)", rpath, mpath))
+			continue // development: the mirror is what is being edited; "check" refuses to run on a mismatch
 		}
 		res[rel] = rpath
 	}
@@ -479,6 +485,10 @@ func (C *Contracts) parseFile(path, pkgPath string) error {
 				curF.ModAll = true
 				break
 			}
+			if rest == "auto" {
+				curF.ModAuto = true
+				break
+			}
 			if rest == "nothing" || rest == "" {
 				break
 			}
@@ -509,6 +519,13 @@ func (C *Contracts) parseFile(path, pkgPath string) error {
 			}
 		case "bounded":
 			curF.Bounded = rest
+		case "harness":
+			curF.Harness = rest
+		case "hide":
+			f := strings.Fields(rest)
+			for _, ob := range f[1:] {
+				curF.Hide = append(curF.Hide, [2]string{f[0], strings.Trim(ob, ",")})
+			}
 		case "note":
 		case "loop":
 			var n int
@@ -543,6 +560,11 @@ func (C *Contracts) parseFile(path, pkgPath string) error {
 			}
 			head := strings.TrimSpace(rest[:eqi])
 			body := rest[eqi+1:]
+			opaquePred := false
+			if strings.HasPrefix(head, "opaque ") {
+				opaquePred = true
+				head = strings.TrimSpace(strings.TrimPrefix(head, "opaque "))
+			}
 			op := strings.Index(head, "(")
 			name := strings.TrimSpace(head[:op])
 			params := parseParams(head[op+1 : strings.LastIndex(head, ")")])
@@ -550,7 +572,7 @@ func (C *Contracts) parseFile(path, pkgPath string) error {
 			if err != nil {
 				return err
 			}
-			C.Preds[name] = &PredDef{Name: name, Params: params, Body: c, Pkg: pkgPath}
+			C.Preds[name] = &PredDef{Name: name, Params: params, Body: c, Pkg: pkgPath, Opaque: opaquePred}
 			curF, curLoop, curLemma, curAxiom = nil, nil, nil, nil
 		case "spec":
 			// spec func name(params) rettype
